@@ -41,6 +41,8 @@ def run(chk):
     for shape in shapes_for(chk.tier):
         base_fee_kernel(chk, it, shape)
     accounting_kernel(chk, it)
+    for n in ((2,) if chk.tier == 'quick' else (2, 3)):
+        accounting_kernel_batch(chk, it, n)
     reward_kernel(chk, it)
 
 
@@ -143,6 +145,113 @@ def accounting_kernel(chk, it):
     if n == 0:
         raise Inconclusive('create_next_state has no returning path')
     it.overrides = [o for o in it.overrides if o[0].pattern != r'Transaction::base_fee']
+
+
+def accounting_kernel_batch(chk, it, n):
+    """create_next_state on n transactions: accepted iff every fee covers its minimum; the pool grows by the sum of the
+    minimum fees and the tips by the sum of the surpluses (saturating), whatever the batch order"""
+    G.reset()
+    G.atomic_domains = {'single:Transaction'}
+    B.abstract_base_fee(it)
+    try:
+        st = State()
+        state, sterms = B.sym_state(st.pc)
+        B.install_coin_invariants(it, B.cdh_covhash)
+        txs, tts = [], []
+        for i in range(n):
+            tx, tt = B.sym_tx('tx' + 'abc'[i], 1, 1, 1, st.pc, exclude_kinds=('Faucet',))
+            txs.append(tx)
+            tts.append(tt)
+        hs = [B.tx_hash_term(it, st, tx) for tx in txs]
+        for i in range(n):
+            for j in range(i + 1, n):
+                G.declare_distinct(hs[i], hs[j])
+        rc = Opaque('Map', MapM())
+        flag = z3.Bool('is_tip_906')
+        fn = it.by_last['create_next_state'][0]
+        bcell = st.alloc(Agg('array', txs))
+        rcell = st.alloc(rc)
+        outs = it.exec_fn(st, fn, [state, Ptr(bcell), Ptr(rcell), flag])
+        mins = [B.MINFEE(M.hash_apply(st, 'txidentity', M.flatten(tx)), sterms['fee_multiplier']) for tx in txs]
+        fees = [tt['fee'] for tt in tts]
+        inputs = {'fee_pool': sterms['fee_pool'], 'tips': sterms['tips'], 'fee_multiplier': sterms['fee_multiplier']}
+        for i in range(n):
+            inputs['fee_%d' % i] = fees[i]
+            inputs['min_fee_%d' % i] = mins[i]
+        W = 128 + 4
+        ext = lambda t: z3.ZeroExt(W - 128, t)
+        cap = lambda t: z3.If(z3.UGT(t, bv(MAXU, W)), bv(MAXU, 128), z3.Extract(127, 0, t))
+        all_cover = z3.And([z3.UGE(f, m) for f, m in zip(fees, mins)])
+        pool_sum, tips_sum = ext(sterms['fee_pool']), ext(sterms['tips'])
+        for f, m in zip(fees, mins):
+            pool_sum = pool_sum + ext(m)
+            tips_sum = tips_sum + ext(f - m)
+        k = 0
+        for idx, (s, o) in enumerate(outs):
+            name = 'create_next_state/%dtx/%d' % (n, idx)
+            rp = lambda mo: replay_fee_batch(chk, mo, inputs, n)
+            if isinstance(o, Panic):
+                chk.obligation('PANIC/' + name, list(s.pc), z3.BoolVal(False), inputs, replay=rp, kind='PANIC', describe=str(o))
+                continue
+            k += 1
+            ok = M.is_variant(o.v, 'Ok')
+            chk.obligation('FUNC/batch-accepted-iff-every-fee-covers-its-minimum/' + name, list(s.pc), ok == all_cover, inputs,
+                           replay=rp, bound='%d transactions, all u128 fees / minimum fees' % n)
+            if 'Ok' in o.v.payloads:
+                ns = o.v.payloads['Ok'][0]
+                claim = z3.And(ns.fields[5].fields[0] == cap(pool_sum), ns.fields[7].fields[0] == cap(tips_sum),
+                               ns.fields[6] == sterms['fee_multiplier'])
+                chk.obligation('FUNC/batch-pool-gets-the-minimums-tips-get-the-rest/' + name, list(s.pc) + [ok], claim, inputs,
+                               replay=rp, bound='%d transactions; sums saturate at u128::MAX' % n)
+            chk.cover('every transaction of the batch tips/' + name, list(s.pc) + [ok] + [z3.UGT(f, m) for f, m in zip(fees, mins)])
+        if k == 0:
+            raise Inconclusive('create_next_state has no returning path')
+    finally:
+        it.overrides = [o for o in it.overrides if o[0].pattern != r'Transaction::base_fee']
+
+
+def replay_fee_batch(chk, model, inputs, n):
+    """n independent always-true spends in one batch; fees = real minimum fee + the surplus the solver chose"""
+    ev = lambda t: harness.model_int(model, t)
+    mult, fp, tips = min(ev(inputs['fee_multiplier']), 1 << 40), ev(inputs['fee_pool']), ev(inputs['tips'])
+    surplus = []
+    for i in range(n):
+        f, m = ev(inputs['fee_%d' % i]), ev(inputs['min_fee_%d' % i])
+        surplus.append(min(max(f - m, 0), 1 << 100) if f >= m else 0)
+    if not any(surplus):
+        surplus = [7 + i for i in range(n)]
+
+    def scenario_for(fees):
+        coins, txs = [], []
+        for i in range(n):
+            cid = {'txhash': {'hex': ('%02x' % (0x11 + i)) * 32}, 'index': 0}
+            value = fees[i] + 5
+            coins.append({'id': cid, 'covhash': {'covhash_of': 'true'}, 'value': str(value), 'denom': 'MEL', 'adata': '', 'height': 0})
+            txs.append({'name': 'abc'[i], 'kind': 0, 'inputs': [cid], 'fee': str(fees[i]), 'covenants': ['true'], 'data': '',
+                        'outputs': [{'covhash': {'covhash_of': 'true'}, 'value': '5', 'denom': 'MEL', 'adata': '%02x' % i}]})
+        return {'kind': 'batch', 'network': 2, 'height': 1, 'fee_pool': str(fp), 'tips': str(tips), 'fee_multiplier': str(mult),
+                'dosc_speed': '1000000', 'coins': coins, 'txs': txs, 'probes': [], 'report_min_fee': True}
+    first = harness.run_replay([scenario_for([1 << 60] * n)], 'dev')[0]
+    if 'error' in first or 'unrealizable' in first:
+        raise Inconclusive('replay: %s' % first)
+    mins = [int(first['min_fees']['abc'[i]]) for i in range(n)]
+    fees = [m + s_ for m, s_ in zip(mins, surplus)]
+    sc = scenario_for(fees)
+    out = harness.run_replay([sc], 'dev')[0]
+    if 'error' in out or 'unrealizable' in out:
+        raise Inconclusive('replay: %s' % out)
+    run = out['runs'][0]
+    mins2 = [int(out['min_fees']['abc'[i]]) for i in range(n)]
+    why = ''
+    if run.get('panicked'):
+        why = 'panic'
+    elif run['result'] != 'Ok':
+        why = '' if any(f < m for f, m in zip(fees, mins2)) else 'every fee covers its minimum but the batch was rejected: %s' % run['result']
+    else:
+        want_pool, want_tips = min(fp + sum(mins2), MAXU), min(tips + sum(f - m for f, m in zip(fees, mins2)), MAXU)
+        if int(run['after']['fee_pool']) != want_pool or int(run['after']['tips']) != want_tips:
+            why = 'pool/tips %s/%s, expected %d/%d' % (run['after']['fee_pool'], run['after']['tips'], want_pool, want_tips)
+    return bool(why), sc, {'why': why or 'consistent', 'min_fees': mins2, 'fees': fees, 'result': run.get('result')}
 
 
 def reward_kernel(chk, it):
